@@ -618,6 +618,11 @@ def _r4(ctx, pkg, rule="R4"):
     elif any(w and sure.get((id(f), v)) for _, w, v, f in verdicts):
         _, _, v, f = next(x for x in verdicts if x[1] and sure.get((id(x[3]), x[2])))
         ctx.bad(rule, K, (NF, f.line), BADMSG, expected=EXP, found=show(v)[:120])
+    elif all(w for _, w, _, _ in verdicts):
+        # every statement that can change the list for a list of positions is understood and removes by something else than the
+        # position: whichever of them runs is wrong -- and if none runs, the listed positions are not removed at all
+        _, _, v, f = verdicts[0]
+        ctx.bad(rule, K, (NF, f.line), BADMSG, expected=EXP, found=show(v)[:120])
     elif any(w for _, w, _, _ in verdicts):
         _, _, v, f = next(x for x in verdicts if x[1])
         ctx.unrec(rule, K, (NF, f.line), f"whether this rebuild runs for a list of positions depends on a test this rule cannot read: {show(v)[:100]}")
